@@ -127,9 +127,17 @@ class FrameNcp:
             return schema(**values).serialize()
         return schema(*values).serialize()
 
+    # status bits a real NCP sets in the frame-control byte of its *responses*: callbackPending (0x04)
+    # whenever callbacks are queued, overflow (0x01) after it ran out of memory at some point
+    FC_STATUS_BITS = (0x00, 0x04, 0x00, 0x01, 0x04, 0x00, 0x05, 0x00)
+
     def encode(self, name, values, seq, callback=False):
         cid = self.COMMANDS[name][0]
-        return X.response_header(self.version, seq, cid, callback) + self.encode_body(name, values)
+        frame = bytearray(X.response_header(self.version, seq, cid, callback) + self.encode_body(name, values))
+        if not callback:
+            self._fc_turn = getattr(self, "_fc_turn", 0) + 1
+            frame[1] |= self.FC_STATUS_BITS[self._fc_turn % len(self.FC_STATUS_BITS)]
+        return bytes(frame)
 
     def callback(self, name, values, delay=0.0):
         """Unsolicited callback frame (sequence = the last response's, as real NCPs do)."""
